@@ -151,11 +151,38 @@ fn main() {
         "check" => cmd_check(&args),
         "replay" => cmd_replay(&args),
         "determinism" => cmd_determinism(&args),
+        "worker" => cmd_worker(&args),
         other => {
             out!("unknown command {other}");
             std::process::exit(2);
         }
     }
+}
+
+/// sim worker <engine> <focus> <tier> <seed> <runs> <idx> <n> <wall_cap> <dir> <known-json>
+fn cmd_worker(args: &[String]) {
+    if args.len() < 12 {
+        out!("HARNESS-ERROR bad worker arguments");
+        std::process::exit(2);
+    }
+    let Some(eng) = Eng::from_name(&args[2]) else {
+        out!("HARNESS-ERROR unknown engine {}", args[2]);
+        std::process::exit(2);
+    };
+    let tier = if args[4] == "thorough" { Tier::Thorough } else { Tier::Quick };
+    let known: Vec<(String, String, String)> = serde_json::from_str(&args[11]).unwrap_or_default();
+    let params = Params {
+        focus: &args[3],
+        tier,
+        seed: args[5].parse().unwrap_or(1),
+        runs: args[6].parse().unwrap_or(0),
+        jobs: 1,
+        wall_cap_s: args[9].parse().unwrap_or(120.0),
+        known: &known,
+    };
+    let idx: usize = args[7].parse().unwrap_or(0);
+    let n: usize = args[8].parse().unwrap_or(1);
+    with_engine!(eng, e => runner::worker_main(e, &params, idx, n, &args[10]));
 }
 
 fn cmd_replay(args: &[String]) {
